@@ -46,7 +46,12 @@ def parseArgs (j : Json) : Args Ava :=
   { inResponseTo := strD j "in_response_to", destination := strD j "destination", spEntityId := strD j "sp_entity_id",
     nameIdPolicy := (obj? j "nip").map fun p => { format := str? p "format", spNameQualifier := str? p "spnq" },
     userid := strD j "userid", nameId := (obj? j "name_id").map parseNameId,
-    authn := (obj? j "authn").map fun x => { classRef := str? x "class_ref", authnAuth := str? x "authn_auth" },
+    authn := (obj? j "authn").map fun x => { classRef := str? x "class_ref", authnAuth := str? x "authn_auth",
+                                             decl := boolD x "decl" },
+    farg := (obj? j "farg").bind fun f => if boolD f "empty" then none else some
+      { malformed := boolD f "malformed", method := str? f "method", recipient := str? f "recipient", irt := str? f "irt",
+        address := str? f "address", notBefore := int? f "nb", notOnOrAfter := int? f "nooa" },
+    status := (obj? j "status").map fun st => { top := strD st "top", second := str? st "second" },
     signResponse := bool? j "sign_response", signAssertion := bool? j "sign_assertion",
     signAlg := str? j "sign_alg", digestAlg := str? j "digest_alg", sessionNooa := int? j "session_nooa",
     releasePolicy := (obj? j "release_policy").map fun p => parsePolicy p "policy",
@@ -93,39 +98,42 @@ def nameIdToJson : Option NameId → Json
 def assertionToJson (x : IssuedAssertion Ava) : Json :=
   Json.mkObj [("issuer", optStr x.issuer), ("sig", sigToJson x.sig), ("name_id", nameIdToJson x.nameId),
     ("confs", jarr (x.confs.map fun c => Json.mkObj [("method", methodName c.method), ("recipient", optStr c.recipient),
-        ("irt", optStr c.irt), ("nb", optInt c.nb), ("nooa", optInt c.nooa)])),
+        ("irt", optStr c.irt), ("nb", optInt c.nb), ("nooa", optInt c.nooa), ("address", optStr c.address)])),
     ("cond_nb", optInt x.condNb), ("cond_nooa", optInt x.condNooa),
     ("audiences", jarr (x.audiences.map jstrs)),
     ("authn", jarr (x.authn.map fun s => Json.mkObj [("class_ref", optStr s.classRef), ("authn_auth", optStr s.authnAuth),
-        ("session_nooa", optInt s.sessionNooa), ("session_index", optStr s.sessionIndex)])),
+        ("session_nooa", optInt s.sessionNooa), ("session_index", optStr s.sessionIndex), ("decl", s.decl)])),
     ("attrs", avaToJson x.attrs)]
 
 def refusalName : Refusal → String
   | .sigAlgNotAllowed => "sigAlgNotAllowed" | .digestAlgNotAllowed => "digestAlgNotAllowed" | .emailNoDomain => "emailNoDomain"
+  | .fargMalformed => "fargMalformed" | .hokNoKeyInfo => "hokNoKeyInfo"
 
 def issuedToJson : Except Refusal (Issued Ava) → Json
   | .error e => Json.mkObj [("r", "refused"), ("why", refusalName e)]
   | .ok r => Json.mkObj [("r", "ok"), ("issuer", optStr r.issuer), ("destination", optStr r.destination),
       ("in_response_to", optStr r.inResponseTo), ("issue_instant", toJson r.issueInstant), ("sig", sigToJson r.sig),
+      ("status_top", r.statusTop), ("status_second", optStr r.statusSecond),
       ("assertions", jarr (r.assertions.map assertionToJson))]
 
 def parseAssertion (j : Json) : IssuedAssertion Ava :=
   { issuer := str? j "issuer", sig := parseSig j "sig", nameId := (obj? j "name_id").map parseNameId,
     confs := (arrD j "confs").map fun c =>
       { method := parseMethod (strD c "method"), recipient := str? c "recipient", irt := str? c "irt",
-        nb := int? c "nb", nooa := int? c "nooa" },
+        nb := int? c "nb", nooa := int? c "nooa", address := str? c "address" },
     condNb := int? j "cond_nb", condNooa := int? j "cond_nooa",
     audiences := (arrD j "audiences").map fun r => asStrList (asArr r),
     authn := (arrD j "authn").map fun s =>
       { classRef := str? s "class_ref", authnAuth := str? s "authn_auth", sessionNooa := int? s "session_nooa",
-        sessionIndex := str? s "session_index" },
+        sessionIndex := str? s "session_index", decl := boolD s "decl" },
     attrs := parseAva j "attrs" }
 
 def parseIssued (j : Json) : Except Refusal (Issued Ava) :=
   if strD j "r" == "ok" then
     .ok { issuer := str? j "issuer", destination := str? j "destination", inResponseTo := str? j "in_response_to",
           issueInstant := intD j "issue_instant", sig := parseSig j "sig",
-          assertions := (arrD j "assertions").map parseAssertion }
+          assertions := (arrD j "assertions").map parseAssertion,
+          statusTop := strD j "status_top", statusSecond := str? j "status_second" }
   else .error .sigAlgNotAllowed   -- which exception is irrelevant to the specification
 
 /-! ### SP outcome ↔ JSON -/
@@ -250,7 +258,22 @@ def handle (line : Json) : Json :=
       ("algorithms", algBranch cfg a),
       ("authn", match authnOut a with
                 | [] => if a.authn.isSome then "no-statement(dict)" else "no-statement(none)"
-                | s :: _ => if s.classRef.isSome then (if s.authnAuth.isSome then "class+authority" else "class") else "bare"),
+                | s :: _ => if s.classRef.isSome then (if s.authnAuth.isSome then "class+authority" else "class")
+                            else if s.decl then "decl" else "bare"),
+      ("farg", match a.farg with
+               | none => "absent-or-empty"
+               | some f =>
+                 if f.malformed then "malformed" else
+                 let parts := (if f.method.isSome then ["method"] else []) ++ (if f.recipient.isSome then ["recipient"] else []) ++
+                   (if f.irt.isSome then ["irt"] else []) ++ (if f.address.isSome then ["address"] else []) ++
+                   (if f.notBefore.isSome then ["nb"] else []) ++ (if f.notOnOrAfter.isSome then ["nooa"] else [])
+                 if parts.isEmpty then "nothing-preset" else "preset:" ++ "+".intercalate parts),
+      ("method", match a.farg.bind (·.method) with
+                 | none => "default"
+                 | some m => methodName (methodOf D m)),
+      ("status", match a.status with
+                 | none => "default"
+                 | some st => if st.top == C09.successUri then "success" else "error"),
       ("session-nooa", if a.sessionNooa.isSome then "given" else "absent"),
       ("sp", spBranch), ("e2e-pre", pre)]),
     ("spec_model", specModel), ("spec_impl", specImpl), ("why", jstrs why)]
